@@ -37,7 +37,20 @@ fn strategy(max_warm: usize) -> BoxedStrategy<Case> {
     // warm-up decides the step size itself, and the library has no tree-depth cap: keep to targets
     // whose adapted trajectories stay short (Gaussians with cond <= 20, Student-t, quartic; low-dim
     // bounded-support targets for the finiteness invariant)
-    let spec = prop_oneof![5 => gauss_spec(5, 20.0), 3 => smooth_spec(6, 50.0), 2 => bounded_spec()];
+    // ... and Gaussians whose length scale (hence adapted step size) lies far below machine
+    // epsilon: a step size is a positive number, not a number of order one
+    let tiny = (gauss_spec(3, 5.0), 8.0f64..17.0).prop_map(|(g, e)| match g {
+        Spec::Gauss { dim, mean, prec } => {
+            let s = 10f64.powf(-e);
+            Spec::Gauss {
+                dim,
+                mean: mean.iter().map(|m| R(m.0 * s)).collect(),
+                prec: prec.iter().map(|p| R(p.0 / (s * s))).collect(),
+            }
+        }
+        other => other,
+    });
+    let spec = prop_oneof![10 => gauss_spec(5, 20.0), 6 => smooth_spec(6, 50.0), 4 => bounded_spec(), 2 => tiny];
     bx((spec, proptest::bool::weighted(0.3), prop_oneof![4 => 0.5f64..0.9, 1 => 0.9f64..0.99], super::c18::seed_strategy(), runs_strategy(max_warm), any::<u64>(), any::<bool>()).prop_map(
         |(spec, f32, accept, seed, mut runs, data_seed, probe_first)| {
             if probe_first {
@@ -114,11 +127,22 @@ where
             if !matches!(c.spec, Spec::HalfLine { .. } | Spec::BoxGauss { .. }) {
                 let mut r0 = SmallRng::seed_from_u64(c.seed);
                 let p0: Vec<f64> = (&mut r0).sample_iter(StandardNormal).take(start_r.len()).map(|v: T| f(v)).collect();
-                let (ea, ma, nonfinite_a) = rn::find_reasonable_epsilon(&c.spec, &start_r, &p0, false);
-                let (eb, mb, _) = rn::find_reasonable_epsilon(&c.spec, &start_r, &p0, true);
+                // (magnitudes within 1e8 of the backend's largest number may overflow inside the
+                // target's own intermediate products)
+                let range = if rtol > 1e-6 { f32::MAX as f64 * 1e-8 } else { f64::MAX * 1e-8 };
+                let (ea, ma, nonfinite_a) = rn::find_reasonable_epsilon(&c.spec, &start_r, &p0, false, range);
+                let (eb, mb, nonfinite_b) = rn::find_reasonable_epsilon(&c.spec, &start_r, &p0, true, range);
+                // a trial step that overflows the backend's arithmetic yields NaN energies there,
+                // on which neither variant is defined
+                let overflowed = nonfinite_b && {
+                    let (_, _, nf64) = rn::find_reasonable_epsilon(&c.spec, &start_r, &p0, true, f64::INFINITY);
+                    !nf64
+                };
                 let mtol = if rtol > 1e-6 { 1e-3 } else { 1e-9 };
                 if ma.min(mb) < mtol {
                     cov.class("eps0-ambiguous");
+                } else if overflowed {
+                    cov.class("eps0-trial-step-overflows-backend-range(skip)");
                 } else {
                     if nonfinite_a {
                         cov.class("eps0-first-step-out-of-support");
